@@ -31,26 +31,30 @@ if [ "$what" = all ] || [ "$what" = asan ]; then
     fi
 fi
 if [ "$what" = all ] || [ "$what" = miri ]; then
-    shards=${AXMON_MIRI_SHARDS:-16}; per=${AXMON_MIRI_CASES:-24}
+    # one Miri process needs 5-10 minutes before its first step() (iced-x86 builds its decoder/encoder tables under
+    # the interpreter); after that a case costs 10-20 s. So: 16 parallel shards, each long enough to amortise the start.
+    case "$prop" in C19) dper=24;; C08) dper=40;; *) dper=100;; esac
+    shards=${AXMON_MIRI_SHARDS:-16}; per=${AXMON_MIRI_CASES:-$dper}
     logdir="$here/replay/$prop"; mkdir -p "$logdir"
     export MIRIFLAGS="-Zmiri-tree-borrows -Zmiri-permissive-provenance -Zmiri-ignore-leaks -Zmiri-disable-isolation"
     export AXMON_NO_REEXEC=1 AXMON_NO_PROGRESS=1 AXMON_NO_RLIMIT=1 AXMON_VERIF_ROOT="$here"
-    # first shard alone (builds the Miri sysroot and the crate), the others in parallel
-    if timeout 1500 cargo +nightly miri run --release --offline --target-dir "$here/harness/target-miri" -- slice "$prop" 0 "$per" >"$logdir/miri-shard-0.log" 2>&1; then s0=0; else s0=$?; fi
-    if grep -q "slice $prop cases" "$logdir/miri-shard-0.log"; then
-        i=1
+    # build step (sysroot + crate): a run that only prints the usage text
+    timeout 1500 cargo +nightly miri run --release --offline --target-dir "$here/harness/target-miri" >"$logdir/miri-build.log" 2>&1
+    if grep -q "usage: axmon" "$logdir/miri-build.log"; then
+        i=0
         while [ $i -lt $shards ]; do
-            ( timeout 1500 cargo +nightly miri run --release --offline --target-dir "$here/harness/target-miri" -- slice "$prop" $((i * per)) "$per" >"$logdir/miri-shard-$i.log" 2>&1; echo $? >"$logdir/miri-shard-$i.rc" ) &
+            rm -f "$logdir/miri-shard-$i.rc"
+            ( timeout ${AXMON_MIRI_TIMEOUT:-3000} cargo +nightly miri run --release --offline --target-dir "$here/harness/target-miri" -- slice "$prop" $((i * per)) "$per" >"$logdir/miri-shard-$i.log" 2>&1; echo $? >"$logdir/miri-shard-$i.rc" ) &
             i=$((i + 1))
         done
         wait
-        echo $s0 >"$logdir/miri-shard-0.rc"
-        bad=0; ran=0; evals=0
+        bad=0; ran=0; evals=0; tmo=0
         i=0
         while [ $i -lt $shards ]; do
             c=$(cat "$logdir/miri-shard-$i.rc" 2>/dev/null || echo 99)
             e=$(grep -o "evaluations=[0-9]*" "$logdir/miri-shard-$i.log" | head -1 | cut -d= -f2)
             evals=$((evals + ${e:-0}))
+            if [ "$c" = 124 ]; then tmo=$((tmo + 1)); fi
             if [ "$c" = 0 ]; then ran=$((ran + 1)); else
                 if grep -qE "Undefined Behavior|VIOLATION-IN-SLICE" "$logdir/miri-shard-$i.log"; then
                     bad=$((bad + 1))
@@ -61,11 +65,11 @@ if [ "$what" = all ] || [ "$what" = miri ]; then
             fi
             i=$((i + 1))
         done
-        printf '{"observer":"miri","flags":"%s","shards":%s,"cases_per_shard":%s,"shards_completed_clean":%s,"shards_with_reports":%s,"evaluations":%s}\n' "$MIRIFLAGS" "$shards" "$per" "$ran" "$bad" "$evals" > "$here/evidence/$prop.miri.json"
-        echo "[miri] $prop: $shards shards x $per cases, $ran clean, $bad with reports, $evals evaluations"
+        printf '{"observer":"miri","flags":"%s","shards":%s,"cases_per_shard":%s,"shards_completed_clean":%s,"shards_with_reports":%s,"shards_stopped_by_the_time_limit":%s,"evaluations":%s}\n' "$MIRIFLAGS" "$shards" "$per" "$ran" "$bad" "$tmo" "$evals" > "$here/evidence/$prop.miri.json"
+        echo "[miri] $prop: $shards shards x $per cases, $ran clean, $bad with reports, $tmo stopped by the time limit, $evals evaluations"
     else
-        echo "sanitize: Miri could not run the slice (see $logdir/miri-shard-0.log): observer unavailable"
-        printf '{"observer":"miri","status":"unavailable: first shard did not complete"}\n' > "$here/evidence/$prop.miri.json"
+        echo "sanitize: Miri could not build/run the harness (see $logdir/miri-build.log): observer unavailable"
+        printf '{"observer":"miri","status":"unavailable: build under Miri failed"}\n' > "$here/evidence/$prop.miri.json"
     fi
 fi
 exit $rc
